@@ -13,6 +13,7 @@
  * a driver gate for the next round -- the documentation makes reinit undefined
  * while a waiter is blocked or the barrier is accessed concurrently.
  * Oracle: see c08_common.h. */
+#include "abti.h"
 #include "c08_common.h"
 
 enum { K_U0, K_U1, K_X, K_M };
@@ -56,9 +57,10 @@ static const cfg_t cfgs[] = {
     { "n=2 r=3: U0 + U1", 0, 2, { K_U0, K_U1 }, 3, { 2, 2, 2 }, 0, 0 },
     { "reinit 1->2->3 r=3: X (+ U1) (+ U0)", 0, 3, { K_X, K_U1, K_U0 }, 3,
       { 1, 2, 3 }, 1, 0 },
-    /* early reinit: participant 0 reinitialises as soon as IT has returned
-     * from the round (so the round is complete and the counter is 0) while the
-     * others may still be leaving it */
+    /* early reinit: participant 0 enters each round last (it waits until the
+     * others are counted) and reinitialises as soon as ITS wait has returned
+     * (the round is complete, the counter is 0, the lock is released) while the
+     * released waiters may still be leaving */
     { "early reinit 2->2 r=2: U1 (reinit right after its return) + X", 1, 2,
       { K_U1, K_X }, 2, { 2, 2 }, 2, 0 },
     { "early reinit 2->3 r=2: M + X (+ U1 in round 1)", 0, 3, { K_M, K_X, K_U1 },
@@ -107,6 +109,21 @@ static void waiter(int i)
         }
         if (i >= C->n[k])
             continue;
+        if (C->reinit == 2 && i == 0 && C->n[k] > 1) {
+            /* early reinit is only defined when issued by the LAST arrival of the
+             * round (the others are released by its broadcast before it resets
+             * the arrival counter; a released waiter that reinitialised at once
+             * would access the barrier concurrently with the last arrival, which
+             * the documentation makes undefined): enter only when everybody else
+             * is counted */
+            const int *cnt = (const int *)&ABTI_barrier_get_ptr(BAR)->counter;
+            if (kind == K_X) {
+                abtmc_wait_until_eq(cnt, C->n[k] - 1);
+            } else {
+                while (abtmc_load(cnt) != C->n[k] - 1)
+                    OK(ABT_thread_yield());
+            }
+        }
         b_arrive(i, k);
         int rc = ABT_barrier_wait(BAR);
         abtmc_check(rc == ABT_SUCCESS, "barrier_wait_rc",
